@@ -7,10 +7,10 @@ def run(rep, tier):
     cfgs = ["x86"] if tier == "quick" else ["x86", "x86-rayon", "arm", "wasm"]
     for cfg, prog in programs(cfgs):
         rep.set_cfg(cfg)
-        dispatch_rules.t_dispatch(rep, prog, "C02.dispatch")
-        dispatch_rules.t_feature(rep, prog, "C02.feature")
-        dispatch_rules.t_precision(rep, prog, "C02.precision")
-        simd_rules.conv_saturate(rep, prog, "C02.saturate")
-        simd_rules.zero_extend(rep, prog, "C02.zero-extend")
-        row_coverage.group_tail(rep, prog, "C02.kernel-rows")
-        loadwidth.guard_adequacy(rep, prog, "C02.loadwidth", loadwidth.FLOOR.get(cfg, 50))
+        rep.call(dispatch_rules.t_dispatch, rep, prog, "C02.dispatch")
+        rep.call(dispatch_rules.t_feature, rep, prog, "C02.feature")
+        rep.call(dispatch_rules.t_precision, rep, prog, "C02.precision")
+        rep.call(simd_rules.conv_saturate, rep, prog, "C02.saturate")
+        rep.call(simd_rules.zero_extend, rep, prog, "C02.zero-extend")
+        rep.call(row_coverage.group_tail, rep, prog, "C02.kernel-rows")
+        rep.call(loadwidth.guard_adequacy, rep, prog, "C02.loadwidth", loadwidth.FLOOR.get(cfg, 50))
